@@ -167,3 +167,17 @@ Proof.
   apply orb_true_iff in H. destruct H as [H|H]; apply andb_true_iff in H; destruct H as [H1 H2];
     apply str_eqb_eq in H1; apply str_eqb_eq in H2; auto.
 Qed.
+
+(* ---- uninitialised memory reaching state ------------------------------------------------------------------------------ *)
+Lemma empty_uses_sound es :
+  forallb eu_initialised es = true -> forall r, In r es -> eu_initialised r = true.
+Proof. intro H. now apply forallb_forall. Qed.
+
+Lemma empty_uses_refuted es :
+  forallb eu_initialised es = false -> exists r, In r es /\ eu_initialised r = false.
+Proof.
+  induction es as [|r t IH]; cbn [forallb]; [discriminate|].
+  destruct (eu_initialised r) eqn:E; cbn [andb]; intro H.
+  - destruct (IH H) as (x & Hx & Hc). exists x. split; [now right|exact Hc].
+  - exists r. split; [now left|exact E].
+Qed.
